@@ -25,3 +25,24 @@ Print Assumptions C04_typed_checksum_roundtrip.
 (* the tree-level statement - deser_ti (table of (print_ini (ser_ti x))) = Ok (norm x) - is decided by the docs_treeinfo
    correspondence (model writer vs real writer byte for byte; model reader vs real reader on the section table the real
    parser produced) and the implementation-side oracle; it is not yet a Coq theorem (partial). *)
+
+(* writer side of the tree-level round trip: the scalar facts of [release] and [tree] are in the written table at their documented
+   places, and no later section writer (variants, checksums, images, stage2, media, general) touches those sections *)
+From PM Require Import Proofs.TreeInfoWriter Base.Ini Model.TreeInfo.
+Theorem C04_written_release_and_tree :
+  forall x mv t, ser_ti x mv = Ok t ->
+  exists name_s ver_s short_s arch_s ts_s,
+    getf (ti_release x) (F"name") = PStr name_s /\ getf (ti_release x) (F"version") = PStr ver_s /\
+    getf (ti_release x) (F"short") = PStr short_s /\ getf (ti_tree x) (F"arch") = PStr arch_s /\
+    py_str_num (getf (ti_tree x) (F"build_timestamp")) = Ok ts_s /\
+    ini_get t (F"release") (F"name") = Ok name_s /\ ini_get t (F"release") (F"version") = Ok ver_s /\
+    ini_get t (F"release") (F"short") = Ok short_s /\
+    ini_get t (F"tree") (F"arch") = Ok arch_s /\ ini_get t (F"tree") (F"platforms") = Ok (platforms_str (ti_tree x)) /\
+    ini_get t (F"tree") (F"build_timestamp") = Ok ts_s.
+Proof. exact written_release_and_tree. Qed.
+Print Assumptions C04_written_release_and_tree.
+
+Theorem C04_variant_writer_stays_in_its_sections :
+  forall tv parent p p', ser_tvar parent tv p = Ok p' -> only_in is_variant_section p p'.
+Proof. exact ser_tvar_only. Qed.
+Print Assumptions C04_variant_writer_stays_in_its_sections.
